@@ -6,8 +6,8 @@ package main
 // evaluated afterwards in the same global scope. Payload = evPayload(program) and
 // evPayload(probe) sections joined by " @ " (source + tree built by the REAL parser).
 //
-// Compared observable:  <outcome of the program>;<outcome of probe 1>;…;G <canonical dump of
-// the global scope>;LOG <ordered marker trace>   where an outcome is
+// Compared observable:  <outcome of the program>;G <canonical dump of the global scope>;LOG <ordered marker trace>;
+// <outcome of probe 1> L <its trace>;…;G <dump after the probes>   where an outcome is
 // OK <canonical value> | ERR <error type> | ERRPLAIN | NOPARSE | V ERR <type>
 // (no message text, no position, functions print as "func").
 //
@@ -118,23 +118,44 @@ func c05Outcome(vs parser.Scope, src string) string {
 	return "OK " + c05Canon(res, evCanonDepth)
 }
 
-func c05Run(payload string) string {
-	evLog.reset()
-	vs := scope.NewScope(scope.GlobalScope)
-	var outs []string
-	for _, sec := range strings.Split(payload, c05Sep) {
-		// "<chained> [~ <as is>] ~ <spec>": the real code runs the first program (see c05Chains)
-		sec = strings.SplitN(sec, c05Alt, 2)[0]
-		src := unhx(strings.SplitN(sec, " ", 2)[0])
-		outs = append(outs, c05Outcome(vs, src))
-	}
+func c05Dump(vs parser.Scope) string {
 	obj := scope.ToObject(vs)
 	items := make([]string, 0, len(obj))
 	for k, v := range obj {
 		items = append(items, c05Canon(k, evCanonDepth-1)+":"+c05Canon(v, evCanonDepth-1))
 	}
 	sort.Strings(items)
-	return strings.Join(outs, ";") + ";G " + strings.Join(items, " ") + ";LOG " + evLog.String()
+	return strings.Join(items, " ")
+}
+
+func c05LogFrom(i int) (string, int) {
+	evLog.mu.Lock()
+	defer evLog.mu.Unlock()
+	return strings.Join(evLog.entries[i:], "|"), len(evLog.entries)
+}
+
+// Result: <program outcome>;G <global dump after the program>;LOG <trace of the program>;<probe 1 outcome> L <trace of
+// probe 1>;…;G <global dump after the probes>.  The model prints U for a probe section it cannot give (and for every
+// section after a probe that left the model); props/C05.py compares section by section and accepts U.
+func c05Run(payload string) string {
+	evLog.reset()
+	vs := scope.NewScope(scope.GlobalScope)
+	var outs []string
+	n := 0
+	for i, sec := range strings.Split(payload, c05Sep) {
+		// "<chained> [~ <as is>] ~ <spec>": the real code runs the first program (see c05Chains)
+		sec = strings.SplitN(sec, c05Alt, 2)[0]
+		src := unhx(strings.SplitN(sec, " ", 2)[0])
+		out := c05Outcome(vs, src)
+		var lg string
+		lg, n = c05LogFrom(n)
+		if i == 0 {
+			outs = append(outs, out, "G "+c05Dump(vs), "LOG "+lg)
+		} else {
+			outs = append(outs, out+" L "+lg)
+		}
+	}
+	return strings.Join(outs, ";") + ";G " + c05Dump(vs)
 }
 
 // ---------------------------------------------------------------- directed families
